@@ -479,3 +479,21 @@ _RULE_ADDENDA_7 = {
 }
 for _k, _v in _RULE_ADDENDA_7.items():
     PROPS[_k]["rule"] += _v
+
+# ... and after the eighth round
+_RULE_ADDENDA_8 = {
+    "C01": " A quarter of the reads of list functions are restricted by a selector in the form the stack's own requests have (partial filter, empty function element); the payload of such a reply is not compared.",
+    "C02": " Run periods: time periods compared as held in memory - a restricted update that mentions no period leaves every period (relative, absolute, absent) as it was. The application may hand the same update value (object) in again later in the history.",
+    "C03": " Bind-then-write and random writes also use the Generic client feature on typed server features, typed and special-role clients on the Generic server feature; in a third of the histories one peer announces itself without device address and takes part in all operations including disconnect + reconnect-then-write.",
+    "C04": " Run periods: an accepted write of one element's value leaves the time periods (relative, absolute) of all elements as held in memory. In the combined shape the partial part may name an element by selector while the command carries no item.",
+    "C07": " The application may add features to the device information entity [0]; a seventh of the features have the role special.",
+    "C08": " Local data changes also concern a function the application never announced; the peer may send its discovery data again and its sub entity [2,1] may go and come back; the registry mix checks the ids over the whole registry after entries were added at the same moment.",
+    "C09": " Operations rediscovery (the peer sends its discovery data again) and subEntity (the peer's sub entity [2,1] is announced as removed and added again: its own bindings go, those of [2] stay).",
+    "C11": " billListData (nested positions) is in the quick subset. Run otherfunctions: non-persisting and failing updates of non-list functions and of list functions without identifiers.",
+    "C12": " In a quarter of the cases per writing peer, the peer re-announces its writing entity (lastStateChange added, same features) between the arrival of its writes and the verdicts; the pending writes are judged as before.",
+    "C14": " Run sameCallback: 2-4 goroutines register the same callback for the same 64 counters from a spinning rendezvous; exactly one registration per counter is accepted, the answer invokes it once.",
+    "C17": " Storm heartbeat-setup-vs-stop: AddFunctionType(heartbeat) against StopHeartbeat / RemoveEntity of the same entity from a rendezvous. The lock watchdog also reports a goroutine inside spine-go waiting for one mutex for three minutes on end.",
+    "C19": " A value an earlier conversion returned may serve as the receiver of a decoded scaled number before the next conversion.",
+}
+for _k, _v in _RULE_ADDENDA_8.items():
+    PROPS[_k]["rule"] += _v
